@@ -5,7 +5,7 @@ CONSTANTS
   Catalog <- Cat16
   MaxR = 2
   KVals <- K3
-  Orders <- OrdTwo
+  Orders <- OrdOne
   FullOrder = TRUE
   Points <- Pts1
   Feeds <- Fd1
